@@ -886,7 +886,7 @@ def check_C20(cx):
         raise
     cx.absorb(rs, cases)
     for r, c in zip(rs, cases):
-        if c["id"].startswith("persist") and r["delivered"] < 2:
+        if c["id"].startswith("persist") and r["delivered"] < 2 and r.get("jitter_ms", 0) < 15:
             f = {"prop": "C20", "key": "not-redelivered", "msg": "%s-idle handler, idle period 60ms: %d idle events in 360ms of silence" % (c["kind"], r["delivered"]), "step": 0}
             cx.fails.append((f, c, r))
     if good:
